@@ -138,8 +138,10 @@ class Check:
         known_hits: list[tuple[Finding, dict[str, Any]]] = []
         new_viol: list[Finding] = []
         for f in viol:
-            ent = next((k for k in known if k.get("property") == self.prop and k.get("rule") == f.rule
-                        and k.get("key") == f.key and k.get("status") == "known"), None)
+            # an entry names the failing construct by the exact instance key, or - for an input that a rule evaluates in several places
+            # (depths, statement kinds, pairings) - by the input's own text inside the key ("key_contains")
+            ent = next((k for k in known if k.get("property") == self.prop and k.get("rule") == f.rule and k.get("status") == "known"
+                        and (k.get("key") == f.key or (k.get("key_contains") and k["key_contains"] in f.key))), None)
             if ent is not None:
                 known_hits.append((f, ent))
             else:
